@@ -687,7 +687,7 @@ func (j *c19HostJudge) onHost(cd Cond) bool {
 func (j *c19HostJudge) emptyTest(cd Cond, gp string) (empty, ok bool) {
 	// the parameter read as params["host"][0]: an empty list means an empty parameter (that is
 	// what Get returns for it); a non-empty list says nothing about the value
-	if x, lo, hi, neg, isLen := h5LenRange(cd.V); isLen {
+	if x, lo, hi, neg, isLen := h5LenRange(cd.V); isLen && pathOf(x) != gp {
 		if pathOf(x)+"[0]" != gp {
 			return false, false
 		}
@@ -697,18 +697,11 @@ func (j *c19HostJudge) emptyTest(cd Cond, gp string) (empty, ok bool) {
 		}
 		return false, false
 	}
-	b, isB := cd.V.(*ssa.BinOp)
-	if !isB || (b.Op != token.EQL && b.Op != token.NEQ) {
-		return false, false
+	// any spelling of "the parameter is (not) empty": p == "", len(p) == 0, len(p) > 0, ...
+	if x, e, isE := emptyCond(cd); isE && pathOf(x) == gp {
+		return e, true
 	}
-	x, y := b.X, b.Y
-	if sv, isS := constString(x); isS && sv == "" {
-		x, y = y, x
-	}
-	if sv, isS := constString(y); !isS || sv != "" || pathOf(x) != gp {
-		return false, false
-	}
-	return (b.Op == token.EQL) == cd.Truth, true
+	return false, false
 }
 
 // judge: value v of function fn becomes the host under the conditions conds.
